@@ -59,7 +59,8 @@ func c12Enforce(c *ctx) {
 	os.WriteFile(filepath.Join(dir, "ht"), []byte("alice:{SHA}"+base64.StdEncoding.EncodeToString(h[:])+"\nbob:plainpw\n"), 0o600)
 	httpA, http6 := fmt.Sprintf("127.0.0.1:%d", freePort()), fmt.Sprintf("[::1]:%d", freePort())
 	tcpAllow, tcpDeny, sniA := fmt.Sprintf("127.0.0.1:%d", freePort()), fmt.Sprintf("127.0.0.1:%d", freePort()), fmt.Sprintf("127.0.0.1:%d", freePort())
-	rg, err := newRig(c, "acl", []string{"-proxy.addr", fmt.Sprintf("%s,%s,%s;proto=tcp,%s;proto=tcp,%s;proto=tcp+sni", httpA, http6, tcpAllow, tcpDeny, sniA),
+	tcpAuth := fmt.Sprintf("127.0.0.1:%d", freePort())
+	rg, err := newRig(c, "acl", []string{"-proxy.addr", fmt.Sprintf("%s,%s,%s;proto=tcp,%s;proto=tcp,%s;proto=tcp+sni,%s;proto=tcp", httpA, http6, tcpAllow, tcpDeny, sniA, tcpAuth),
 		"-proxy.auth", "name=basic1;type=basic;file=" + filepath.Join(dir, "ht") + ";realm=verif", "-log.level", "WARN"})
 	if err != nil {
 		c.R.Inconcl("cannot start fabio: %v", err)
@@ -119,7 +120,8 @@ func c12Enforce(c *ctx) {
 	lines = append(lines,
 		fmt.Sprintf("route add tcpallow :%s tcp://%s opts \"proto=tcp allow=ip:127.9.0.0/16\"", pa, eln.Addr()),
 		fmt.Sprintf("route add tcpdeny :%s tcp://%s opts \"proto=tcp deny=ip:127.9.8.7,ip:127.5.0.0/16\"", pd, eln.Addr()),
-		fmt.Sprintf("route add sniacl aclsni.test/ tcp://%s opts \"proto=tcp allow=ip:127.0.0.1/32\"", eln.Addr()))
+		fmt.Sprintf("route add sniacl aclsni.test/ tcp://%s opts \"proto=tcp allow=ip:127.0.0.1/32\"", eln.Addr()),
+		fmt.Sprintf("route add tcpauth :%s tcp://%s opts \"proto=tcp auth=basic1\"", strings.Split(tcpAuth, ":")[1], eln.Addr()))
 	rg.setManual(strings.Join(lines, "\n"))
 	if err := rg.barrier(); err != nil {
 		c.R.Inconcl("barrier: %v", err)
@@ -295,6 +297,31 @@ func c12Enforce(c *ctx) {
 	// conservation: every upstream connection belongs to an admitted client connection
 	if echoConns.Load()-echoBase > admittedTCP.Load() {
 		c.R.Violate("c12e:tcp-upstream-contacted-for-refused-peer", fmt.Sprintf("the TCP upstream accepted %d connections but only %d client connections were admitted by the rules", echoConns.Load()-echoBase, admittedTCP.Load()), nil)
+	}
+	// a TCP connection cannot present credentials: a route that asks for them is closed to the TCP proxies, be it a tcp
+	// route with auth= or an HTTP route with auth= reached through the tcp+sni listener by its server name
+	for i, tcase := range []struct{ what, addr, sni string }{{"tcp route with auth=basic1", tcpAuth, ""}, {"http route auth.test (auth=basic1) through the tcp+sni listener", sniA, "auth.test"}, {"tcp route with auth=basic1", tcpAuth, ""}} {
+		before, hitsBefore := echoConns.Load(), up.Hits.Load()
+		cn, err := net.DialTimeout("tcp", tcase.addr, 5*time.Second)
+		if err != nil {
+			c.R.Violate("c12e:tcp-connect-failed", fmt.Sprintf("%s: %v", tcase.what, err), nil)
+			break
+		}
+		cn.SetDeadline(time.Now().Add(3 * time.Second))
+		if tcase.sni != "" {
+			cn.Write(c09Hello(tcase.sni))
+		}
+		fmt.Fprintf(cn, "GET /secret HTTP/1.1\r\nHost: auth.test\r\nX-Verif-Id: tcpauth-%d\r\nConnection: close\r\n\r\n", i)
+		buf := make([]byte, 256)
+		n, _ := io.ReadAtLeast(cn, buf, 1)
+		cn.Close()
+		time.Sleep(50 * time.Millisecond)
+		c.R.Eval(1)
+		c.R.Nontrivial(fmt.Sprintf("tcp-auth|%s|%d", tcase.what, i))
+		if n > 0 || echoConns.Load() > before || up.Hits.Load() > hitsBefore {
+			c.R.Violate("c12e:tcp-connection-forwarded-despite-auth", fmt.Sprintf("%s: the connection was tunnelled (client read %d bytes, tcp upstream connections +%d, http upstream connections +%d) although no credentials can have been accepted", tcase.what, n, echoConns.Load()-before, up.Hits.Load()-hitsBefore), nil)
+			break
+		}
 	}
 }
 
